@@ -169,6 +169,20 @@ func body(c *hk.Ctx) {
 		s.mesos.Agents = append(s.mesos.Agents, &simmesos.Agent{ID: "agent-" + h, Hostname: h, Attributes: map[string]string{"machine_id": h}, Cpus: 8, Mem: 8192, PortsBegin: 9000, PortsEnd: 9200 + 21000})
 		s.consul.Set("o2/hardware/detectors/DET"+fmt.Sprint(i+1)+"/flps/"+h+"/", "")
 	}
+	if c.F(4, "offers-not-in-lock-step") == 3 {
+		lateOnce := map[string]bool{}
+		s.mesos.OfferDelay = func(a *simmesos.Agent) time.Duration {
+			if c.S.Now() < 1500*time.Millisecond || lateOnce[a.ID] {
+				return 0 // only one round of offers per agent is late, and not the very first after subscribing
+			}
+			if c.F(3, "agent-offer-late") == 2 {
+				lateOnce[a.ID] = true
+				c.Count("fault.offer_late")
+				return time.Duration(300+c.F(2500, "offer-late-ms")) * time.Millisecond
+			}
+			return 0
+		}
+	}
 	s.mesos.Latency = func(kind string) time.Duration { return time.Duration(c.F(4, "latency-"+kind)) * 3 * time.Millisecond }
 
 	// ---- one workflow ----
@@ -294,6 +308,14 @@ func body(c *hk.Ctx) {
 		})
 	}
 	simrt.Sleep(30 * time.Second)
+	for _, cl := range s.mesos.Calls {
+		c.Logf("mesos call seq=%d t=%v inc=%d %s fw=%s offers=%v tasks=%v %s err=%s", cl.Seq, cl.At, cl.Inc, cl.Type, cl.FwID, cl.Offers, cl.Tasks, cl.Detail, cl.Err)
+	}
+	if c.Trace {
+		for _, l := range hk.BlockedSummary("Control/core/environment.", "Control/core/task.", "Control/core.(", "controlcommands.") {
+			c.Debugf("goroutine at end: %s", l)
+		}
+	}
 	c.NonTrivial = len(wf.Tasks) > 0
 	checkC02(c, s, sc, wf, prop)
 }
@@ -345,9 +367,21 @@ func checkC02(c *hk.Ctx, s *sys, sc *scenario, wf *wfSpec, prop string) {
 				if !want {
 					cause = "unexpected-success"
 				} else {
-					for _, t := range wf.Tasks {
-						if !t.Critical && t.Start != "ok" && strings.Contains(r.Err, "deployment timed out") {
+					// the error lists the roles that were not active: all of them non-critical?
+					if strings.Contains(r.Err, "deployment timed out") {
+						onlyNonCritical, any := true, false
+						for _, t := range wf.Tasks {
+							if strings.Contains(r.Err, "."+t.Role+"]") || strings.Contains(r.Err, "."+t.Role+",") || strings.Contains(r.Err, "."+t.Role+";") {
+								any = true
+								if t.Critical {
+									onlyNonCritical = false
+								}
+							}
+						}
+						if any && onlyNonCritical {
 							cause = "noncritical-task-not-active-fails-deploy"
+						} else if c.Stats["fault.offer_late"] > 0 {
+							cause = "offer-round-without-a-host-deploys-nothing"
 						}
 					}
 				}
